@@ -7,6 +7,7 @@ prop(
     level="exploration",
     design_ref="DESIGN.md 2/C18",
     needs_bin=True,
+    crash_is_violation=True,
     stages=[
         dict(run="^TestPropTotality$",
              quick=dict(checks=8000, shards=32, parallel=32, timeout=900),
